@@ -12,6 +12,7 @@ import (
 	"fmt"
 	"os"
 	"strings"
+	"sync"
 	"time"
 
 	"verif/lib/lalenv"
@@ -66,6 +67,16 @@ func confOf(name string) world.Conf {
 	}
 	panic(name)
 }
+
+// slowMessage: a single message of a few bytes is processed in well under a millisecond; one that
+// keeps a 16-worker machine busy for this long is a candidate for "not bounded by its size". A
+// candidate is only reported if it is as slow again, twice, when it is run alone afterwards.
+const slowMessage = 2 * time.Second
+
+var (
+	slowMu    sync.Mutex
+	slowCases []protox.Case
+)
 
 func runCase(c protox.Case) (res protox.Result) {
 	var d caseData
@@ -161,6 +172,11 @@ func runCase(c protox.Case) (res protox.Result) {
 		if p := w.Net.FirstPanic(); p != "" {
 			res.Panic = p
 			return false
+		}
+		if el > slowMessage && res.OtherK == "" {
+			// not believed yet: the parent repeats the case alone before it reports anything
+			res.Other = fmt.Sprintf("%s (type %d, %d bytes, ts %d) took %s to process", label, typ, len(p), ts, el.Round(time.Millisecond))
+			res.OtherK = "slow-message"
 		}
 		wr := writesAll() - before
 		// bounded work: a message is relayed with a number of writes proportional to its size
@@ -508,6 +524,17 @@ func buildCases(r *vk.Run) []protox.Case {
 			}
 		}
 	}
+	// H.264 sequence headers whose SPS announces more than it holds: for every ue / se element of two
+	// SPS templates (baseline with pic_order_cnt_type 1; high profile with scaling matrix, cropping and
+	// VUI), the elements before it as in the template, that element set to a huge value, and the SPS
+	// ending right there (emulation-prevention bytes inserted as the syntax demands). A parser that loops
+	// over a count it has just read must stop when the data does.
+	for _, sps := range lyingSps() {
+		h := []byte{0x17, 0, 0, 0, 0, 1, sps[1], sps[2], sps[3], 0xff, 0xe1, byte(len(sps) >> 8), byte(len(sps))}
+		h = append(append(h, sps...), 1, 0, 4, 0x68, 0xce, 0x3c, 0x80)
+		cs = append(cs, mk("none", "all", "rtmp", msg{9, 0, hex.EncodeToString(h)}))
+		cs = append(cs, mk("headers+key", "all", "rtmp", msg{9, 440, hex.EncodeToString(h)}))
+	}
 	// H.265 sequence headers that are not a decoder configuration record: lal then looks for Annex-B
 	// start codes in them. Every string of <= 4 (quick) / 5 (thorough) segments over {4-byte start code,
 	// 3-byte start code, VPS / SPS / PPS NAL header, a payload byte, a zero byte} after the 5-byte tag
@@ -581,7 +608,7 @@ func main() {
 	r := vk.Start("C05", "exploration")
 	r.Rule("one case = (well-formed prefix) x (output configuration) x (ingest path) x (1-3 hostile media messages from the payload-shape alphabet); each runs on a fresh real server in a worker process with subscribers present and joining later and a healthy second stream. distinct_nontrivial = distinct (prefix, config, path, first-message shape, outcome)")
 	r.Assume("messages are well framed (the reference chunk encoder); payload bytes, lengths and timestamps are arbitrary",
-		"bounded work is measured as the number of socket writes caused by one message (<= 400 + len/20), plus a 120 s per-case deadline; not as wall-clock latency",
+		"bounded work is measured as the number of socket writes caused by one message (<= 400 + len/20), a 120 s per-case deadline, and 2 s per message - the latter reported only if the case is that slow twice more when run alone afterwards",
 		"an RTSP player joins as soon as the prefix has given the stream its sequence headers (without a key frame in the prefix it is playing and still waiting for one when the hostile message arrives)")
 	if r.ReplayIn != "" {
 		var c protox.Case
@@ -594,12 +621,39 @@ func main() {
 	r.Cov("cases", len(cases))
 	n := protox.Run(cases, 16, 120*time.Second, nil, r.OutOfTime, func(o protox.Outcome) { report(r, o) })
 	r.Eval(n)
+	// slow candidates: each is run alone, twice more; it is reported only if it is slow every time
+	confirmed := 0
+	for _, c := range slowCases {
+		slow := 0
+		for k := 0; k < 2; k++ {
+			protox.Run([]protox.Case{c}, 1, 120*time.Second, nil, nil, func(o protox.Outcome) {
+				if o.Res.OtherK == "slow-message" || o.Killed {
+					slow++
+				}
+			})
+		}
+		if slow == 2 {
+			confirmed++
+			confirming = true
+			protox.Run([]protox.Case{c}, 1, 120*time.Second, nil, nil, func(o protox.Outcome) {
+				if o.Res.OtherK == "slow-message" {
+					o.Res.OtherK = "unbounded-work/time"
+				}
+				report(r, o)
+			})
+			confirming = false
+		}
+	}
+	r.Cov("slow_candidates", len(slowCases))
+	r.Cov("slow_confirmed", confirmed)
 	if n < len(cases) {
 		r.NotExhaustive(fmt.Sprintf("time budget: %d of %d cases executed", n, len(cases)))
 	}
 	r.Sample(map[string]interface{}{"key": cases[len(cases)/2].Key, "data": json.RawMessage(cases[len(cases)/2].Data)})
 	r.Finish()
 }
+
+var confirming bool
 
 func report(r *vk.Run, o protox.Outcome) {
 	var d caseData
@@ -626,6 +680,11 @@ func report(r *vk.Run, o protox.Outcome) {
 	case o.Res.Probe != "":
 		cls = "probe"
 		r.Violation("other-stream-affected/"+d.Conf, o.Res.Probe+" :: "+what, o.Case)
+	case o.Res.OtherK == "slow-message" && !confirming:
+		cls = "slow-candidate"
+		slowMu.Lock()
+		slowCases = append(slowCases, o.Case)
+		slowMu.Unlock()
 	case o.Res.Other != "":
 		cls = o.Res.OtherK
 		r.Violation(o.Res.OtherK+"/"+d.Conf, o.Res.Other+" :: "+what, o.Case)
@@ -650,4 +709,96 @@ func firstLines(s string, n int) string {
 		}
 	}
 	return strings.Join(keep, " | ")
+}
+
+// ---- SPS with lying counts -------------------------------------------------------------------------------------------
+
+type spsField struct {
+	kind string // u (fixed bits), ue, se
+	bits int
+	val  uint64
+}
+
+type bitW struct {
+	b    []byte
+	nbit int
+}
+
+func (w *bitW) put(v uint64, n int) {
+	for i := n - 1; i >= 0; i-- {
+		if w.nbit%8 == 0 {
+			w.b = append(w.b, 0)
+		}
+		if v>>uint(i)&1 == 1 {
+			w.b[len(w.b)-1] |= 0x80 >> uint(w.nbit%8)
+		}
+		w.nbit++
+	}
+}
+
+func (w *bitW) ue(v uint64) {
+	n := 0
+	for (v+1)>>uint(n+1) != 0 {
+		n++
+	}
+	w.put(0, n)
+	w.put(v+1, n+1)
+}
+
+// escape inserts emulation-prevention bytes (H.264 7.4.1).
+func escape(rbsp []byte) []byte {
+	var out []byte
+	z := 0
+	for _, x := range rbsp {
+		if z >= 2 && x <= 3 {
+			out = append(out, 3)
+			z = 0
+		}
+		out = append(out, x)
+		if x == 0 {
+			z++
+		} else {
+			z = 0
+		}
+	}
+	return out
+}
+
+func lyingSps() [][]byte {
+	u := func(bits int, v uint64) spsField { return spsField{"u", bits, v} }
+	ue := func(v uint64) spsField { return spsField{"ue", 0, v} }
+	templates := [][]spsField{
+		// baseline, pic_order_cnt_type 1
+		{u(8, 66), u(8, 0), u(8, 31), ue(0), ue(0), ue(1), u(1, 0), ue(0), ue(0), ue(2), ue(0), ue(0), ue(3), u(1, 0), ue(19), ue(14), u(1, 1), u(1, 1), u(1, 1), ue(0), ue(0), ue(0), ue(1), u(1, 0)},
+		// high profile: chroma 1, bit depths, scaling matrix absent, poc type 0, cropping, VUI with timing
+		{u(8, 100), u(8, 0), u(8, 31), ue(0), ue(1), ue(0), ue(0), u(1, 0), u(1, 0), ue(0), ue(0), ue(2), ue(3), u(1, 0), ue(19), ue(14), u(1, 1), u(1, 1), u(1, 1), ue(0), ue(0), ue(0), ue(1), u(1, 1),
+			u(1, 0), u(1, 0), u(1, 0), u(1, 0), u(1, 1), u(32, 1), u(32, 50), u(1, 1), u(1, 1), ue(0), u(4, 0), u(4, 0), ue(1), ue(1), u(1, 0)},
+		// high profile with a scaling matrix announced (8 list flags follow)
+		{u(8, 100), u(8, 0), u(8, 31), ue(0), ue(1), ue(0), ue(0), u(1, 0), u(1, 1), u(1, 0), u(1, 0), u(1, 0), u(1, 0), u(1, 0), u(1, 0), u(1, 0), u(1, 0), ue(0), ue(2), ue(0)},
+	}
+	huge := []uint64{255, 65535, 1 << 24, 1<<32 - 2}
+	var out [][]byte
+	for _, t := range templates {
+		for i, f := range t {
+			if f.kind != "ue" {
+				continue
+			}
+			for _, hv := range huge {
+				w := &bitW{}
+				for _, g := range t[:i] {
+					if g.kind == "ue" {
+						w.ue(g.val)
+					} else {
+						w.put(g.val, g.bits)
+					}
+				}
+				w.ue(hv)
+				out = append(out, append([]byte{0x67}, escape(w.b)...))
+				// and with the stop bit, as a whole (short) RBSP
+				w.put(1, 1)
+				out = append(out, append([]byte{0x67}, escape(w.b)...))
+			}
+		}
+	}
+	return out
 }
